@@ -197,6 +197,22 @@ CLAIMED = {
             "axioms; grouping strategies, tape construction, diagonalize_measurements / sign_expand / broadcast_expand / "
             "batch_* and execution are outside. F13 fixed in repo.",
             "DESIGN.md 4 C20", "E1"),
+    "C21": ("proof",
+            "sidecar contracts on ops/mid_measure measurement_value.py (MeasurementValue._merge, _apply, _transform_bin_op, "
+            "__invert__, concretize, items, branches, __getitem__, postselected_items, the 14 binary dunders and 4 reflected "
+            "ones): VCs from the real ASTs on operands of enumerated DEPENDENCY SHAPE with symbolic outcomes and scalars and "
+            "uninterpreted processing functions; the closure the real code returns is CALLED symbolically on a fresh outcome "
+            "assignment sigma of the merged measurement list and compared with the pointwise denotation "
+            "[[a op b]](sigma) == [[a]](sigma) op [[b]](sigma); branch enumerations executed for n <= 3; z3",
+            "For every dependency shape with <= 2 measurements per operand (all orders / sharing patterns) plus shapes with 3: "
+            "the merged list is duplicate-free and ordered by id, shared measurements are routed to both operands, every "
+            "operator dunder (both operand orders, scalars either side) denotes pointwise arithmetic on outcomes, concretize == "
+            "denotation, items / branches / [i] enumerate all 2^n branches with the documented bit order, postselected_items is "
+            "the consistent sub-enumeration - for ALL outcomes, scalars and processing functions.",
+            "Size-bounded in dependency shapes; uniqueness of measurement ids assumed; qp.math logical / mod helpers are "
+            "uninterpreted (routing checked, not numerics); deferred measurement, tree traversal, one-shot execution and "
+            "postselection modes - the bulk of the property - are NOT covered.",
+            "DESIGN.md 4 C21", "E1"),
     "C22": ("proof",
             "sidecar contracts on transforms/resolve_dynamic_wires.py (_WireManager.__init__/get_wire/_get_zeroed/_get_any/"
             "_add_new_wire/return_wire, the generator _new_ops, resolve_dynamic_wires set-up) and the device call site "
@@ -235,7 +251,9 @@ CLAIMED = {
             "operations a tagged union {Controlled, ControlledOp, other}; names uninterpreted; counting dictionaries as z3 arrays; "
             "loop invariants 'entry k is the number of elements so far with key k, present iff positive, sum of entries == "
             "index' through indexed count / sum spec functions used via instances of their defining equations), plus "
-            "size-bounded checks of SpecsResources.__post_init__ and _flatten_dict; z3",
+            "size-bounded checks of SpecsResources.__post_init__ and _flatten_dict; cache coherence of the circuit graph through "
+            "QuantumScript.__init__ / graph / copy (the cached graph is None or the graph of the CURRENT circuit) and keyword "
+            "precedence of the partial-args wrapper of qp.specs, both size-bounded; frame clauses (read-only) on every function; z3",
             "For all tape lengths and contents: gate counts by type with the controlled-prefix rule, measurement counts, the "
             "total == number of operations, wire and depth passthrough; SpecsResources totals on <= 3 entries / 2 nesting levels.",
             "Trusts the pyvc encoder + vf/pyvc/xmaps.py (tagged unions, defaultdict/Counter model), z3; _mp_to_str/_obs_to_str and "
@@ -245,7 +263,10 @@ CLAIMED = {
             "sidecar contracts on estimator/{wires_manager,resources_base,resource_operator,estimate}.py (VCs from the real ASTs, "
             "z3): exact integers, gate-count dictionaries as z3 arrays with every per-gate statement proved at an ARBITRARY key, "
             "decompositions an uninterpreted function into action lists of symbolic length over a tagged union, loops cut by "
-            "invariants, the self-recursive call replaced by the contract being proved, composition laws as lemmas over the contracts",
+            "invariants, the self-recursive call replaced by the contract being proved, composition laws as lemmas over the contracts; "
+            "the exact wire effect of REPEATED operations against the closed form of sequential repetition (size-bounded over "
+            "decomposition shapes, induction lemmas over the allocate / release contracts); frame and exception-safety clauses on "
+            "every mutating method",
             "For all inputs (unbounded integers, all map contents, all decomposition lengths): wire-manager invariant and "
             "grab/free accounting with ValueError exactly on the tight-budget shortfall / over-free; Resources add_/multiply_ "
             "series/parallel are pointwise sums/multiples with the series/parallel wire rules; "
@@ -267,6 +288,21 @@ CLAIMED = {
             "Size-bounded (counts dictionaries only); process_samples / _samples_to_counts (numpy code) and every other "
             "measurement's sample post-processing are not covered.",
             "DESIGN.md 4 C30", "E1"),
+    "C36": ("proof",
+            "sidecar contract on gradients/finite_difference.py finite_diff_coeffs: the real body executed symbolically for ALL n "
+            "and approx_order (symbolic ints) up to its linear solve with numpy abstracted (interval aranges, the Vandermonde "
+            "matrix, the right-hand side): argument validation, the shift set and the system handed to the solver are the "
+            "specified ones (z3); for n <= 4, order <= 6 and all strategies the REAL output is compared with an independent exact "
+            "rational solution (Fraction arithmetic), which is checked to satisfy the moment conditions",
+            "For all n, approx_order and each strategy: ValueError exactly on the documented invalid inputs; the shifts are N "
+            "consecutive integers containing 0 with the strategy's range and the documented N; A is the Vandermonde matrix of "
+            "the shifts and b == n! e_n - so, by the assumed contract of the linear solve, sum c_i s_i^k == n! [k == n] for k < "
+            "N, i.e. exactness on polynomials of degree < n + approx_order. The returned array equals the exact solution "
+            "(zero column dropped, ordered by |shift|) for the 60 enumerated triples.",
+            "scipy.linalg.solve (A c == b; Vandermonde with distinct nodes non-singular) and the symmetry lemma for even n "
+            "centred are ASSUMED; floats as reals; the returned coefficients are only checked for the enumerated sizes within a "
+            "normwise 1e-9 tolerance.",
+            "DESIGN.md 4 C36", "E1"),
     "C39": ("proof",
             "contract on compute_vjp_single/_multi, compute_jvp_single/_multi, vjp, jvp, batch_vjp, batch_jvp (result == explicit "
             "contraction of the Jacobian with the cotangent / tangent, shape included): the REAL functions are executed on numpy "
@@ -387,6 +423,19 @@ CLAIMED = {
             "reals; the undecorated device method, callbacks and _group_measurements are uninterpreted; devices without the "
             "decorator and QNode-level batching are outside.",
             "DESIGN.md 4 C73", "E1"),
+    "C50": ("other",
+            "path-exhaustive bit-level symbolic execution (E2b): the REAL numpy functions of math/binary_linalg.py run on object "
+            "arrays of symbolic GF(2) bits, forking on every truth test by re-execution, with a check that the path conditions "
+            "cover the whole input space; per path z3 proves RREF-ness, row-space equality, pivots == rank and solver "
+            "correctness against exhaustively expanded GF(2) specifications; functions that inspect every bit are enumerated "
+            "completely per shape against brute-force span references; int_to_binary for all integers per width",
+            "binary_finite_reduced_row_echelon (all 2^(mn) matrices of every shape up to 3x4; 4x5 thorough), "
+            "binary_solve_linear_system (n <= 3: x returned => A regular and A x == b; LinAlgError => singular), "
+            "binary_matrix_rank / binary_is_independent / binary_select_basis (complete enumeration, mn <= 12), int_to_binary "
+            "(every integer incl. negatives, widths 0..8).",
+            "Size-bounded, complete per shape - no proof for all sizes; numpy is assumed to treat object arrays of bit scalars "
+            "like integer arrays (re-checked by the integer-dtype enumerations).",
+            "DESIGN.md 4 C50", "E2b"),
     "C51": ("proof",
             "contracts on pauli/pauli_arithmetic.py: the module's multiplication / anticommutation / matrix / sparse-data tables "
             "(read from the real module each run) against independent reference matrices in exact cyclotomic arithmetic "
@@ -414,6 +463,20 @@ CLAIMED = {
             "The MBQC conversion half (convert_to_mbqc_*, byproduct bookkeeping over a tape, measurement branches) is not "
             "covered; operators abstracted to their class; commute_clifford_op size-bounded in xz length (0..3).",
             "DESIGN.md 4 C74", "E1+E2"),
+    "C52": ("other",
+            "contracts on pauli/grouping/group_observables.py: the adjacency construction is enumerated on all word pairs of <= 3 "
+            "qubits x 3 grouping types against relations computed from exact Kronecker matrices (per-qubit formula decided by z3); "
+            "the grouping bookkeeping (colour classes -> index / item partitions, the wire-less shortcut, the first-match "
+            "coefficient loop) is executed symbolically from the real ASTs per number of observables with all colourings, "
+            "adjacencies, indices and identity patterns symbolic, under the ASSUMED contract of rustworkx.graph_greedy_color "
+            "(total, proper); the public functions run end to end on small word lists with exact-matrix confirmation",
+            "Groups are a partition of the indices (each exactly once, order kept), members of a group are pairwise related "
+            "(qwc / commuting / anticommuting), custom indices travel by position, coefficients travel with their observable, "
+            "wire-less observables are handled per grouping type (F27) - for <= 4 observables (5 thorough) and all symbolic "
+            "colourings; adjacency exact for <= 3 qubits.",
+            "Size-bounded (level other); graph colouring assumed (confirmed on all graphs with <= 4 nodes, bounded); "
+            "recursive_largest_first, binary conversions and diagonalize_qwc_* are not covered. F27 fixed in repo.",
+            "DESIGN.md 4 C52", "E1+E2b"),
     "C61": ("proof",
             "contract on step/step_and_cost/apply_grad/compute_grad of the six gradient optimizers: outputs == documented "
             "update rule; real methods executed on sympy-backed symbolic scalars from an arbitrary accumulator state with an "
